@@ -118,6 +118,10 @@ def run(ctx: Ctx):
                 if p.eof:
                     lines += ["AFTER", "END", "AFTER", "FEED " + cdrv.hexs(bs[:3] or junk), "AFTER", "END"]
                 runs.append(("%s.%d" % (p.name, ii), p, lines))
+                if p.eof and len(bs) >= 2 and ii % 3 == 0:
+                    # end() in the middle of an input that would have gone on: whatever it returns, a FAIL has to stay a FAIL when the rest is fed
+                    j = rng.randrange(1, len(bs))
+                    runs.append(("%s.%d.e" % (p.name, ii), p, ["START", "FEED " + cdrv.hexs(bs[:j]), "AFTER", "END", "AFTER", "FEED " + cdrv.hexs(bs[j:]), "AFTER", "END"]))
         res = batch.run(runs, timeout=1200, zero_heap=True)
         ctx.count("binaries")
         for rid, run_ in res.items():
